@@ -7,7 +7,7 @@ set -u
 P=$1; N=$2; DEMODIR=$3; TIER=${4:-quick}; shift 4 2>/dev/null || shift $#
 EXTRA="$@"
 SRC=/tmp/seed-$P-out/change$N
-DST=/verif/seeded/$P-$N
+DST=/verif/seeded/$P-${DSTN:-$N}
 WT=/tmp/sc-$P-$N
 . /verif/env.sh
 git -C /repo worktree remove --force $WT >/dev/null 2>&1
@@ -39,7 +39,7 @@ import json,os
 meta={}
 try: meta=json.load(open("$SRC/meta.json"))
 except Exception as e: meta={"agent_meta_error":str(e)}
-out={"property":"$P","seed":"$P-$N","agent_meta":meta,"base_commit":"$(git -C /repo rev-parse --short HEAD)",
+out={"property":"$P","seed":"$P-${DSTN:-$N}","agent_meta":meta,"base_commit":"$(git -C /repo rev-parse --short HEAD)",
  "confirmed":{"patch_applies":"$R_applies","builds":"$R_builds","suite_with_patch":"$R_suite_with_patch","demo_with_patch":"$R_demo_with_patch","demo_without_patch":"$R_demo_without_patch","demo_dir":"$DEMODIR"},
  "what_i_ran":"git worktree of /repo HEAD; git apply patch.diff; go build ./...; go test -vet=off -count=1 ./... ; demo copied to $DEMODIR and run with go test (with and without the patch); then VERIF_REPO=<worktree> ./vcheck <prop> $TIER",
  "checks":json.loads("[" + """$CHK""".rstrip(",") + "]")}
